@@ -418,8 +418,16 @@ C14_ValidityContainsNow ==
 C01_ManifestExact ==
     \A k \in DOMAIN keys : keys[k].unlisted = <<>> /\ keys[k].missing = <<>>
 
+\* C01 / C09: once background work has caught up -- which includes the RRDP
+\* update every publication leaves in the task queue -- what is served (the
+\* RRDP snapshot the notification file names, the rsync tree) is the
+\* repository content
+C01_ServedIsContent ==
+    (l > 1 /\ Rec[l - 1].ev = "Settled")
+        => rp.rrdpdiff = 0 /\ rp.rsyncdiff = 0
+
 TraceInvariant ==
-    /\ TypeOK
+    /\ TypeOK /\ C01_ServedIsContent
     /\ C03_RevokedWhileRelevant /\ C03_CurrentNotRevoked
     /\ C14_NumbersAgree /\ C14_ValidityContainsNow /\ C14_StorePublished
     /\ C01_ManifestExact
